@@ -71,3 +71,8 @@ check("C09", "component-coverage set comparison; pairing rules on the snapshot l
       "Static: checkpoint/ok/restore apply the matching operation to all four components; snapshot/restore/drop pairing on Stack and SnapshottingInt; on all 17 symbolic paths of the Stack methods the change of len(popped) equals the change of the snapshots' popped counts (this rule reports both defects of the original drop_snapshot/clear and is silent on the repaired code); nothing outside the owners touches items/popped/lengths/_checkpoints/_pos_history or calls the snapshot methods.",
       "NOT decided: that the delta encoding reproduces the snapshot contents for every history (needs induction over unbounded histories: model checking / proof). The conservation law is a necessary inductive invariant of it, not the whole equivalence.", "§4 C09")
 NOT_APPLICABLE.pop("C09", None)
+
+check("C02", "contradiction / unchecked-result rule on optional-returning pass helpers; sibling agreement between is_order_independent and build_optimized_pattern; registration and honouring of atomic_only; mutation-site purity of the passes; symbolic normalisation of every unroll() arm (five-constructor term algebra); " + OPS_TECH + " for the post-optimizer terminals",
+      "Static, structural necessary conditions: O1 no ignored None result; O2 regex form only under the order-independence test whose ranks mirror the emission order; O3 trivia-sensitive passes registered atomic_only and the flag honoured; O4 passes mutate scratch objects only; O5 shared built-ins excluded from the in-place store; O6 SkipUntil/OptimizedChoice/RegexExpression meet the operator obligations on both siblings; O7 unroll arms == unrolled forms of the specification table; O8 inliner conditions; O9 SKIP fusion conditions.",
+      "NOT decided: equivalence of the regex produced by build_optimized_pattern with the choice it replaces (beyond O2 and C12's fragment rules) and of SkipUntil's search with the loop it replaces in atomic context: these are equalities of languages of run-time constructed objects.", "§4 C02")
+NOT_APPLICABLE.pop("C02", None)
